@@ -277,7 +277,8 @@ other("C19", "trace contracts (orchestration mode: file and raster operations un
       trusted=["assumed: a rasterio writer opened with count/height/width holds count bands of that size and write(a, k) replaces band k "
                "by a (the array having the file's size and k within the count are obligations)"])
 other("C20", "margin tables of every step class decided exhaustively (@tables), Margins descriptors and the margins getters of "
-      "the matching-cost / filter classes proved (value contracts), glue contracts on the <step>_check_conf callbacks (each step "
+      "the matching-cost / filter classes proved (value contracts), max_margins proved for sequences of one to three margins (per "
+      "side an upper bound that is attained: 'the larger of'), glue contracts on the <step>_check_conf callbacks (each step "
       "records its margins exactly once under its own name); the global margins of whole pipelines:")
 
 for _pid in ["C03", "C06", "C08", "C11", "C14", "C18"]:
